@@ -308,7 +308,7 @@ class Check(object):
         self.nreplay = 0
         self._distinct = set()
         self.level = "proof"
-        self.max_reports = 8
+        self.max_reports = int(os.environ.get("VERIF_MAX_REPORTS", "8"))
         for f in os.listdir(self.dir):
             if f.startswith("replay_"):
                 os.remove(os.path.join(self.dir, f))
@@ -386,10 +386,14 @@ class Check(object):
         if key is not None:
             replay["key"] = key
             for k in load_known():
-                if k.get("property") == self.prop and k.get("status") == "open" and k.get("key") == key:
-                    if key not in self.known_hits:
-                        self.known_hits.append(key)
-                        print("KNOWN-FINDING: property=%s %s" % (self.prop, k.get("what", key)), flush=True)
+                if k.get("property") != self.prop or k.get("status") != "open":
+                    continue
+                # one genuine defect may have a family of failing inputs: key_regex names the family
+                if k.get("key") == key or (k.get("key_regex") and re.match(k["key_regex"], key)):
+                    kid = k.get("key") or k.get("key_regex")
+                    if kid not in self.known_hits:
+                        self.known_hits.append(kid)
+                        print("KNOWN-FINDING: property=%s %s" % (self.prop, k.get("what", kid)), flush=True)
                     return False
         if len(self.violations) >= self.max_reports:
             self.violations.append((None, found_input))
